@@ -20,6 +20,7 @@ import (
 	"math/rand"
 	"os"
 	"runtime"
+	"runtime/debug"
 	"sort"
 	"strconv"
 	"strings"
@@ -77,6 +78,9 @@ func guard(f func() string) (res string) {
 	defer func() {
 		if r := recover(); r != nil {
 			res = "panic"
+			if os.Getenv("VERIF_PANIC_TRACE") != "" { // debugging aid: where the code under test panicked
+				fmt.Fprintf(os.Stderr, "panic: %v\n%s\n", r, debug.Stack())
+			}
 		}
 	}()
 	return f()
